@@ -134,6 +134,31 @@ def gen():
                 and "set_num_system_words(system.lexicon().num_system_words()asusize);" in nu2
                 and "fnnum_system_words(&self)->u32{self.lexicons[0].size()}" in _norm(ls))
     out.append("Definition refs_against_system_only : bool := %s.\n" % ("true" if sys_refs else "false"))
+    # ---- tokens made by path rewrite plugins: which word id (dictionary number / OOV) they carry
+    nd = F.strip_comments(F.src("sudachi/src/analysis/node.rs"))
+    co = _norm(F.fn_body(nd, "concat_oov_nodes", "analysis/node.rs"))
+    if "letmutwid=WordId::from_raw(0);" in co and "wid=wid.max(node.word_id());" in co \
+            and "if!wid.is_oov(){wid=WordId::new(wid.dic(),WordId::MAX_WORD);}" in co \
+            and re.search(r"Node::new\(path\[begin\]\.begin\(\)asu16,path\[end-1\]\.end\(\)asu16,u16::MAX,u16::MAX,i16::MAX,wid,\)", co):
+        out.append('Definition join_oov_wid_rule : string := "max-of-parts;non-oov->(dic,MAX_WORD)".\n')
+    else:
+        raise F.FactError("concat_oov_nodes no longer gives the joined node `max over the parts' word ids, (dic, MAX_WORD) when that is not OOV`")
+    cn = _norm(F.fn_body(nd, "concat_nodes", "analysis/node.rs"))
+    if not re.search(r"Node::new\(path\[begin\]\.begin\(\)asu16,path\[end-1\]\.end\(\)asu16,u16::MAX,u16::MAX,i16::MAX,WordId::INVALID,\)", cn):
+        raise F.FactError("concat_nodes no longer gives the joined node WordId::INVALID")
+    if "pubconstINVALID:WordId=WordId::from_raw(0xffff_ffff);" not in _norm(w):
+        raise F.FactError("WordId::INVALID is no longer 0xffff_ffff")
+    out.append("Definition JOINED_INVALID : N := %s.\n" % F.coq_int(0xffffffff))
+    # ---- file based loading: every configured userDict entry is one dictionary of the stack, in order
+    cf = F.strip_comments(F.src("sudachi/src/config.rs"))
+    ru = _norm(F.fn_body(cf, "resolved_user_dicts", "config.rs"))
+    if ru != "self.user_dicts.iter().map(|p|self.complete_path(p)).collect()":
+        raise F.FactError("Config::resolved_user_dicts no longer maps every configured entry to one path, in order")
+    fc = _norm(F.fn_body(d, "from_cfg", "dictionary.rs"))
+    if "letmutsb=SudachiDicData::new(load_system_dic(cfg)?);forudicincfg.resolved_user_dicts()?{sb.add_user(map_file(&udic)" not in fc \
+            or "Self::from_cfg_storage(cfg,sb)" not in fc:
+        raise F.FactError("JapaneseDictionary::from_cfg no longer adds one user dictionary per resolved path and defers to from_cfg_storage")
+    out.append("Definition user_dict_per_listing : bool := true.\n")
     # LoadedDictionary: num_system_pos is the POS count of the system dictionary file
     dm = F.strip_comments(F.src("sudachi/src/dic/mod.rs"))
     for fn in ("from_system_dictionary", "to_loaded"):
